@@ -58,7 +58,16 @@ impl<'a, F: Read + Write + Seek> MiniChain<'a, F> {
                     self.sector_ids[new_num_sectors - 1],
                 )?;
             }
-            // TODO: zero remainder of final sector
+            // Zero the remainder of the final mini sector, so that growing
+            // the chain again later exposes only zeros.
+            let remainder = new_num_sectors as u64 * sector_len - new_len;
+            if remainder > 0 {
+                let mut sector = self.minialloc.seek_within_mini_sector(
+                    self.sector_ids[new_num_sectors - 1],
+                    sector_len - remainder,
+                )?;
+                sector.write_all(&vec![0u8; remainder as usize])?;
+            }
         } else {
             for _ in self.sector_ids.len()..new_num_sectors {
                 let new_sector_id =
